@@ -414,10 +414,11 @@ class EvolvableMultiInput(EvolvableModule):
 
         # Extract features from non-vector subspaces
         extracted_features = OrderedDict()
-        if self.extracted_features_dim > 0:
-            for key in x.keys():
-                if key in self.feature_net.keys():
-                    extracted_features[key] = self.feature_net[key](x[key])
+        # (also when no sub-space has a feature extractor of its own: multi-dimensional vector-like
+        # sub-spaces are flattened by a module of the feature net)
+        for key in x.keys():
+            if key in self.feature_net.keys():
+                extracted_features[key] = self.feature_net[key](x[key])
 
         # Extract raw features from vector spaces
         vector_inputs = []
